@@ -242,7 +242,7 @@ pub fn campaign(id: &str, tier: Tier) -> SeqCampaign {
                 big_values: false,
                 multi_block: 2,
                 hostile: 0,
-                memory_limit: 0,
+                memory_limit: 1,
                 invalid: 2,
                 flush: 6,
                 reopen: 2,
@@ -252,13 +252,13 @@ pub fn campaign(id: &str, tier: Tier) -> SeqCampaign {
             SeqCampaign {
                 property: "C14",
                 level: "exploration",
-                strategy: proptest::strategy::Union::new_weighted(vec![(19, case_strategy(&bias)), (1, crate::ops::long_range_strategy())]).boxed(),
+                strategy: proptest::strategy::Union::new_weighted(vec![(18, case_strategy(&bias)), (1, crate::ops::long_range_strategy()), (1, crate::ops::budget_explicit_strategy())]).boxed(),
                 flags: Flags { results: true, snapshot: true, range: true, readback: true, ..Flags::default() },
                 owned: vec!["range", "readback", "snapshot"],
                 cases: tier.pick(2000, 14000),
                 shrink_iters: 300,
                 nontrivial: c14_nt,
-                rule: format!("{base_rule}biased to range queries: bounds from the key universe +/- one byte, empty, 0xff.., start > end, limits 0/1/k/usize::MAX, over resident, cached and disk-only values and over expired entries; one case in twenty populates 257-620 keys (plain, short and long TTL) and queries ranges with limits around 256/512 after deletes, updates and clock advances, so the scan crosses its 256-entry re-pin boundary. Result must be exactly the model's live unexpired keys in [start, end], ascending, first `limit`, with current values; both indexes hold the same key set after every step. Non-trivial: a query whose limit cut a range that contained expired entries, or a range with expired entries inside read from offloaded values."),
+                rule: format!("{base_rule}biased to range queries: bounds from the key universe +/- one byte, empty, 0xff.., start > end, limits 0/1/k/usize::MAX, over resident, cached and disk-only values and over expired entries; one case in twenty populates 257-620 keys (plain, short and long TTL) and queries ranges with limits around 256/512 after deletes, updates and clock advances, so the scan crosses its 256-entry re-pin boundary; another one in twenty runs a few keys against a 2.5-9 KB memory budget (refused growing updates through both APIs followed by full-range queries). Result must be exactly the model's live unexpired keys in [start, end], ascending, first `limit`, with current values; both indexes hold the same key set after every step. Non-trivial: a query whose limit cut a range that contained expired entries, or a range with expired entries inside read from offloaded values."),
                 assumptions: vec![ASSUME_CLOCK.into(), ASSUME_EXPIRED.into()],
                 extra: None,
             }
